@@ -144,7 +144,9 @@ func (c *callEngine) Call(ctx context.Context, params ...uint64) ([]uint64, erro
 	return paramResultSlice[:c.numberOfResults], nil
 }
 
-func (c *callEngine) addFrame(builder wasmdebug.ErrorBuilder, addr uintptr) (def api.FunctionDefinition, listener experimental.FunctionListener) {
+// compiledModuleOfAddr returns the compiled module whose executable contains addr, also after that module
+// has been closed and thereby deleted from the engine, which is allowed while calls are outstanding.
+func (c *callEngine) compiledModuleOfAddr(addr uintptr) *compiledModule {
 	eng := c.parent.parent.parent
 	cm := eng.compiledModuleOfAddr(addr)
 	if cm == nil {
@@ -166,8 +168,11 @@ func (c *callEngine) addFrame(builder wasmdebug.ErrorBuilder, addr uintptr) (def
 			}
 		}
 	}
+	return cm
+}
 
-	if cm != nil {
+func (c *callEngine) addFrame(builder wasmdebug.ErrorBuilder, addr uintptr) (def api.FunctionDefinition, listener experimental.FunctionListener) {
+	if cm := c.compiledModuleOfAddr(addr); cm != nil {
 		index := cm.functionIndexOf(addr)
 		def = cm.module.FunctionDefinition(cm.module.ImportFunctionCount + index)
 		var sources []string
@@ -586,7 +591,7 @@ func (c *callEngine) stackIterator(onHostCall bool) experimental.StackIterator {
 type stackIterator struct {
 	retAddrs      []uintptr
 	retAddrCursor int
-	eng           *engine
+	ce            *callEngine
 	pc            uint64
 
 	currentDef *wasm.FunctionDefinition
@@ -601,7 +606,7 @@ func (si *stackIterator) reset(c *callEngine, onHostCall bool) {
 	si.retAddrs = unwindStack(uintptr(unsafe.Pointer(c.execCtx.stackPointerBeforeGoCall)), c.execCtx.framePointerBeforeGoCall, c.stackTop, si.retAddrs)
 	si.retAddrs = si.retAddrs[:len(si.retAddrs)-1] // the last return addr is the trampoline, so we skip it.
 	si.retAddrCursor = 0
-	si.eng = c.parent.parent.parent
+	si.ce = c
 }
 
 // Next implements the same method as documented on experimental.StackIterator.
@@ -611,7 +616,7 @@ func (si *stackIterator) Next() bool {
 	}
 
 	addr := si.retAddrs[si.retAddrCursor]
-	cm := si.eng.compiledModuleOfAddr(addr)
+	cm := si.ce.compiledModuleOfAddr(addr)
 	if cm != nil {
 		index := cm.functionIndexOf(addr)
 		def := cm.module.FunctionDefinition(cm.module.ImportFunctionCount + index)
@@ -641,7 +646,10 @@ func (si *stackIterator) Definition() api.FunctionDefinition {
 // SourceOffsetForPC implements the same method as documented on experimental.InternalFunction.
 func (si *stackIterator) SourceOffsetForPC(pc experimental.ProgramCounter) uint64 {
 	upc := uintptr(pc)
-	cm := si.eng.compiledModuleOfAddr(upc)
+	cm := si.ce.compiledModuleOfAddr(upc)
+	if cm == nil {
+		return 0
+	}
 	return cm.getSourceOffset(upc)
 }
 
